@@ -2,6 +2,7 @@ import CuriesVerif.Codec
 import CuriesVerif.Model.Loaders
 import CuriesVerif.Model.Reconcile
 import CuriesVerif.Model.Discovery
+import CuriesVerif.Model.Writers
 
 /-!
 # Operation histories over converter slots
@@ -20,6 +21,7 @@ inductive Step where
   | chain (dst : Nat) (srcs : List Nat) (cs : Bool)
   | sub (dst src : Nat) (prefixes : List Str)
   | query (c : Nat) (q : Query)
+  | roundtrip (dst src : Nat) (fmt : String) (syn expand : Bool)   -- write with a writer, read back
   | discover (dst : Nat) (src : Option Nat) (delims : List Str) (cutoff : Option Nat) (metaprefix : Str)
       (uris : List Str) (alnum : List Nat)
   | remapCurie (dst src : Nat) (rm : List (Str × Str))
@@ -107,6 +109,28 @@ def Step.exec (fold : Str → Str) (s : Slots) : Step → Slots × Val
     match s.get? ci with
     | none => (s, .bad "no such slot")
     | some c => (s, c.run q)
+  | .roundtrip dst src fmt syn expand =>
+    match s.get? src with
+    | none => (s, .bad "no such slot")
+    | some c =>
+      let recs? : Except Err (List Record × Bool) :=
+        match fmt with
+        | "epm" => .ok (Writers.epmRoundtrip c.records, true)
+        | "jsonld" =>
+          (Loaders.jsonldPrefixMap (Writers.jsonldContext c.records expand syn)).map fun pm =>
+            (Loaders.prefixMapRecords pm, !syn)
+        | "shacl" =>
+          match Writers.shaclRoundtrip c.records syn with
+          | some l => .ok (l, !syn)
+          | none => .error .other
+        | "tsv" =>
+          match Writers.tsvRoundtrip c.records with
+          | some pm => .ok (Loaders.prefixMapRecords pm, true)
+          | none => .error .other
+        | _ => .error .other
+      match recs? with
+      | .error e => (s, .err e)
+      | .ok (recs, strict) => initInto s dst (.ok recs) [58] strict
   | .discover dst src delims cutoff metaprefix uris alnum =>
     match (match src with | some i => (s.get? i).map some | none => some none) with
     | none => (s, .bad "no such slot")
@@ -170,6 +194,9 @@ def step (j : Json) : D Step := do
     pure (.chain (← nat "dst") srcs (boolD j "cs" true))
   | "sub" => pure (.sub (← nat "dst") (← nat "src") (← strs (← j.getObjVal? "prefixes")))
   | "q" => pure (.query (← nat "c") (← query j))
+  | "roundtrip" => do
+    pure (.roundtrip (← nat "dst") (← nat "src") (← (← j.getObjVal? "fmt").getStr?) (boolD j "syn" false)
+      (boolD j "expand" false))
   | "discover" => do
     let src ← match fieldD j "src" .null with
       | .null => pure none
